@@ -26,7 +26,10 @@ RULE = ("1..4 TimeDate/TimeSpan blocks spread over the local and the UTC cron of
         "'reconfig' events (placement before/after the timers of the instant, bursts of several blocks) at "
         "offsets of 1 us .. 2 ms around boundaries of the same and of other blocks, new end points placed "
         "1 us .. a few read latencies after the reconfiguration; forward clock jumps 30 s .. 1 h at "
-        "arbitrary instants and just before boundaries. Every recalc of every block is logged with the "
+        "arbitrary instants and just before boundaries; latency spikes: 1..3 timer wake-ups 2..20 ms late at "
+        "chosen alarms (injected by the harness, reported to the model as `late` records that excuse that "
+        "window only) in 1..3 day runs of 2..5 blocks with 3..6 time ranges each, so that tens of alarms "
+        "follow the spike. Every recalc of every block is logged with the "
         "reading it was given (in-process wrapper) and the Lean acceptance predicate checks S1 (output = "
         "calendar predicate of the reading, Lean civil calendar), S2 (every boundary served within 5 ms), "
         "S3 (recalculated within 1 h + 5 ms after a jump), the legality of every group of blocks cron "
@@ -344,6 +347,50 @@ def gen_circuit(rng, tier):
             'blocks': blocks, 'ops': ops}
 
 
+SPIKES_US = [2000, 3000, 6000, 6000, 8000, 10000, 15000, 20000]
+
+
+def gen_spike(rng, tier):
+    """latency spikes: one to three timer wake-ups are 2..20 ms late (a load peak of the machine, injected by
+    the harness), all others on time; many alarms follow, so that an error fed back into cron's wake-up
+    overhead estimate has tens of alarms to grow"""
+    year, month, day = rng.choice(START_DAYS) if rng.random() < 0.5 else (
+        rng.randint(1971, 2099), rng.randint(1, 12), rng.randint(1, 28))
+    lat = rng.choice([2, 2, 50])
+    ilat = rng.choice([0, 100, 300])
+    ndays = rng.choice([1, 1, 2]) if tier == 'quick' else rng.choice([1, 2, 3])
+    t0 = to_us(dt.datetime(year, month, day)) + rng.randrange(0, 24 * 60) * 60 * 10 ** 6
+    t1 = t0 + ndays * DAY_US + rng.randrange(0, 3600) * 10 ** 6
+    blocks = []
+    for i in range(rng.choice([2, 3, 4])):
+        times = []
+        for _ in range(rng.randint(3, 6)):
+            lo = rng.randrange(0, 24 * 60) * 60 * 10 ** 6 + rng.choice([0, 0, 0, 500, 30 * 10 ** 6])
+            hi = (lo + rng.randrange(5, 300) * 60 * 10 ** 6) % DAY_US
+            times.append([hms(lo), hms(hi)])
+        cfg = {'times': times, 'dates': None, 'weekdays': rnd_weekdays(rng) if rng.random() < 0.3 else None}
+        blocks.append({'kind': 'td', 'utc': rng.random() < 0.4, 'cfg': cfg})
+    if rng.random() < 0.4:
+        lo = t0 + rng.randrange(HOUR_US, DAY_US) // (60 * 10 ** 6) * 60 * 10 ** 6
+        blocks.append({'kind': 'ts', 'utc': rng.random() < 0.5,
+                       'cfg': {'span': [[stamp_list(lo), stamp_list(lo + rng.randrange(1, 600) * 60 * 10 ** 6)]]}})
+    # the alarms of the first third of the run: block boundaries and the hourly wake-ups
+    alarms = []
+    for b in blocks:
+        alarms.extend(cfg_boundaries_abs(b['kind'], b['cfg'], t0 + 60 * 10 ** 6, t0 + (t1 - t0) // 3))
+    h = (t0 // HOUR_US + 1) * HOUR_US
+    while h < t0 + (t1 - t0) // 3:
+        alarms.append(h)
+        h += HOUR_US
+    spikes = []
+    for _ in range(rng.choice([1, 1, 2, 3])):
+        a = rng.choice(alarms)
+        spikes.append({'w': a - rng.choice([30000, 30000, 12000, 500]), 'lat': rng.choice(SPIKES_US)})
+    spikes.sort(key=lambda x: x['w'])
+    return {'kind': 'circuit', 'family': 'spike', 'start': t0, 'end': t1, 'lat': lat, 'ilat': ilat,
+            'blocks': blocks, 'ops': [], 'spikes': spikes}
+
+
 def targeted(tier):
     """seed-independent schedules aimed at the windows between a block's own clock read and the
     scheduler's next one (DESIGN.md 5, rows 3 and 4)"""
@@ -387,6 +434,17 @@ def targeted(tier):
                     'blocks': [{'kind': 'td', 'utc': True,
                                 'cfg': {'times': [[[23, 50], [0, 30]]], 'dates': None, 'weekdays': [1]}}],
                     'ops': [{'op': 'jump', 'w': eve + 3 * HOUR_US + 2700 * 10 ** 6, 'delta': delta}]})
+    # one single wake-up (the one before 11:00) is 6 / 10 / 20 ms late, then a day and a half of alarms
+    wed = to_us(dt.datetime(2026, 3, 4, 9, 50))
+    for sp in (6000, 10000, 20000):
+        out.append({'kind': 'circuit', 'family': 'targeted-spike', 'start': wed, 'end': wed + 36 * HOUR_US,
+                    'lat': 2, 'ilat': 300 if sp == 6000 else 0,
+                    'blocks': [{'kind': 'td', 'utc': False,
+                                'cfg': {'times': [[[8, 0], [9, 0]], [[13, 30], [14, 15]], [[20, 0], [2, 30]]],
+                                        'dates': None, 'weekdays': None}},
+                               {'kind': 'ts', 'utc': True,
+                                'cfg': {'span': [[[2026, 3, 5, 8, 0], [2026, 3, 5, 8, 30]]]}}],
+                    'ops': [], 'spikes': [{'w': wed + 70 * 60 * 10 ** 6 - 30000, 'lat': sp}]})
     # several blocks reconfigured at once just before the scheduler's final short sleep: the reload is
     # handled after the alarm time of ANOTHER block
     for n, lat, ilat in ((4, 200, 100), (3, 200, 400), (4, 200, 0), (2, 200, 400)):
@@ -422,8 +480,8 @@ def scenarios(rng, tier):
             yield {'kind': 'civil', 'list': days[i:i + 400]}
     yield from targeted(tier)
     n = 10000 if tier == 'quick' else 200000
-    for _ in range(n):
-        yield gen_circuit(rng, tier)
+    for i in range(n):
+        yield gen_spike(rng, tier) if i % 8 == 7 else gen_circuit(rng, tier)
 
 
 def shrink(scn):
@@ -432,6 +490,9 @@ def shrink(scn):
     ops = scn['ops']
     for i in reversed(range(len(ops))):
         yield {**scn, 'ops': ops[:i] + ops[i + 1:]}
+    spikes = scn.get('spikes') or []
+    for i in reversed(range(len(spikes))):
+        yield {**scn, 'spikes': spikes[:i] + spikes[i + 1:]}
     # drop a block that no op refers to (re-indexing the others)
     used = {o['blk'] for o in ops if o['op'] == 'reconfig'}
     for i in reversed(range(len(scn['blocks']))):
@@ -569,6 +630,31 @@ def run_impl(scn):
         loop = sim.loop
         loop.iter_latency_us = scn['ilat']
         cur = [(s['kind'], s['cfg']) for s in scn['blocks']]
+        spikes = sorted(scn.get('spikes') or [], key=lambda x: x['w'])
+        plain_run_once = loop._run_once
+
+        def run_once():
+            # injected latency spike: the first batch of timer callbacks due at/after `w` runs `lat` us late
+            # (all timers of this loop belong to the cron tasks; the driver itself uses none)
+            if spikes:
+                nxt = loop.next_timer_us()
+                if nxt is not None:
+                    jumps = not loop._ready and nxt > loop.now_us and not getattr(loop, 'hold', False)
+                    if jumps or nxt <= loop.now_us:
+                        due = world.now_us() + (max(nxt, loop.now_us) - loop.now_us)
+                        if due >= spikes[0]['w']:
+                            sp = spikes.pop(0)
+                            events.append({'k': 'late', 't': due, 'delta': sp['lat']})
+                            saved = loop.iter_latency_us
+                            loop.iter_latency_us = saved + sp['lat']
+                            try:
+                                plain_run_once()
+                            finally:
+                                loop.iter_latency_us = saved
+                            return
+            plain_run_once()
+        if spikes:
+            loop._run_once = run_once
         ops = list(scn['ops'])
 
         async def goto(wall, place, exact=False):
@@ -694,6 +780,10 @@ def run_impl(scn):
             lines.append(f"cron probe {ev['t']} {ev['blk']} {b(ev['out'])}")
             trace.append('ok')
             group_obj = None
+        elif k == 'late':
+            lines.append(f"cron late {ev['t']} {ev['delta']}")
+            trace.append('ok')
+            group_obj = None
         else:
             group_obj = None
         if 'out' in ev and k != 'probe':
@@ -706,7 +796,7 @@ def run_impl(scn):
     nrec = sum(1 for o in scn['ops'] if o['op'] == 'reconfig')
     d0 = from_us(scn['start'])
     tags = [f"family={scn['family']}", f"lat={scn['lat']}", f"ilat={scn['ilat']}", f"blocks={len(scn['blocks'])}",
-            f"jumps={njump}", f"reconfigs={min(nrec, 4)}", f"days={(scn['end'] - scn['start']) // DAY_US}",
+            f"jumps={njump}", f"reconfigs={min(nrec, 4)}", f"spikes={len(scn.get('spikes') or [])}", f"days={(scn['end'] - scn['start']) // DAY_US}",
             'crons=' + '+'.join(sorted({'utc' if s['utc'] else 'local' for s in scn['blocks']}))]
     tags += sorted({f"kind={s['kind']}" for s in scn['blocks']})
     if (d0.month, d0.day) in ((12, 31), (12, 30)):
@@ -783,6 +873,7 @@ def oracle(scn, res):
     out = []
     cur = [(s['kind'], s['cfg']) for s in scn['blocks']]
     last_jump = None
+    lates = []
     judged = 0
     seen = set()
     for ev in res['events']:
@@ -795,9 +886,13 @@ def oracle(scn, res):
                 out.append({'clause': 'reconfig_accepted', 'what': f"reconfig raised {ev['what']}"})
         elif k == 'jump':
             last_jump = ev['t'] + ev['delta']
+        elif k == 'late':
+            lates.append((ev['t'], ev['delta']))
         elif k == 'probe':
             kind, cfg = cur[ev['blk']]
             t = ev['t']
+            if any(tl - 1000 <= t <= tl + d + PROBE_US for tl, d in lates[-3:]):
+                continue        # inside the window of an injected delay: not cron's doing
             if last_jump is not None and t <= last_jump + BOUND_US + PROBE_US:
                 continue
             if oracle_boundaries(kind, cfg, t):
